@@ -210,7 +210,7 @@ def k_layout(rep):
                assumes=['a worker blocked in barrier.wait() keeps its pool slot, so all parties must be able to run at once: processes >= parties'])
     try:
         fac, text = slicer.slice_function(F, 'filter_mc_sharemem', targets=['barrier', 'pool', 'ymins', 'ymaxs'], params=['cores', 'nslice', 'shape', 'step_size'],
-                                          calls=['ymaxs.append'], returns=['ymins', 'ymaxs'], closure=True)
+                                          calls=['ymaxs.append'], returns=['ymins', 'ymaxs'], closure=True, closure_exclude=())
     except slicer.AnchorMissing as e:
         rep.inconc('anchor-missing %s' % e)
         rep.end_kernel()
@@ -297,7 +297,7 @@ def search_layout_witness():
     (uses the real layout statements through the slice in concrete mode)"""
     try:
         fac, _ = slicer.slice_function(F, 'filter_mc_sharemem', targets=['barrier', 'pool', 'ymins', 'ymaxs'], params=['cores', 'nslice', 'shape', 'step_size'],
-                                       calls=['ymaxs.append'], returns=['ymins', 'ymaxs'], closure=True)
+                                       calls=['ymaxs.append'], returns=['ymins', 'ymaxs'], closure=True, closure_exclude=())
     except slicer.AnchorMissing:
         return None
     for H in (101, 64, 33, 16):
